@@ -117,6 +117,11 @@ func HarnessSeq() {
 				live++
 			}
 			vrt.Assert("C13.files-of-deleted-segments-gone", len(e.FS.Names()) == live)
+			for _, si := range e.Meta.State.Segments {
+				if !si.SealTime.IsZero() && !m.empty() {
+					vrt.Assert("C13.no-segment-wholly-inside-the-deleted-range-is-kept", si.MaxIndex >= m.first() && si.MinIndex <= m.last())
+				}
+			}
 			vrt.Assert("C13.create-never-collides", e.FS.Collisions == 0)
 			vrt.Reach("c13-checked")
 		}
